@@ -50,4 +50,4 @@ for d, fired, err in res:
         for k in keys:
             print('             %s %s' % (pid, k[:200]))
     out[name] = fired
-json.dump(out, open(os.path.join(V, '.cache', 'seedtest.json'), 'w'), indent=1)
+json.dump(out, open(os.environ.get('SEEDTEST_OUT') or os.path.join(V, '.cache', 'seedtest.json'), 'w'), indent=1)
